@@ -241,6 +241,37 @@ func (x *explorer) deep(t *Term, st map[int]Val, depth int) *Term {
 	return &Term{Op: t.Op, Name: t.Name, Args: args, V: t.V, Fields: t.Fields, Pos: t.Pos}
 }
 
+// ageTerm marks the element/key of the range loop over xkey held in a value
+// that survives the iteration as belonging to an earlier iteration.
+func ageTerm(t *Term, xkey string) *Term {
+	if t == nil {
+		return t
+	}
+	if t.Op == "old" {
+		return t
+	}
+	if (t.Op == "re" || t.Op == "rk") && t.Args[0].Key() == xkey {
+		return &Term{Op: "old", Args: []*Term{t}}
+	}
+	if len(t.Args) == 0 {
+		return t
+	}
+	var args []*Term
+	for i, a := range t.Args {
+		na := ageTerm(a, xkey)
+		if na != a && args == nil {
+			args = append([]*Term{}, t.Args...)
+		}
+		if args != nil {
+			args[i] = na
+		}
+	}
+	if args == nil {
+		return t
+	}
+	return &Term{Op: t.Op, Name: t.Name, Args: args, V: t.V, Fields: t.Fields, Pos: t.Pos}
+}
+
 func copyStore(st map[int]Val) map[int]Val {
 	n := make(map[int]Val, len(st)+2)
 	for k, v := range st {
@@ -638,6 +669,16 @@ func (x *explorer) step(s *PState) []succ {
 			ls := append(append([]Label{}, labels...), Label{Kind: "rangedone", Key: key, T: xr, Node: n})
 			return []succ{{n: n.Succ[1], st: st2, facts: s.Facts, labels: ls}}
 		}
+		age := func(st2 map[int]Val) {
+			for id, v := range st2 {
+				if v.T == nil || (n.KeyVar != nil && id == n.KeyVar.ID) || (n.ValVar != nil && id == n.ValVar.ID) {
+					continue
+				}
+				if nt := ageTerm(v.T, key); nt != v.T {
+					st2[id] = Val{T: nt, N: v.N}
+				}
+			}
+		}
 		bodyOK, doneOK := true, true
 		if n.First {
 			if s.Facts["NE:"+key] || (xr.Op == "list" && len(xr.Args) > 0) {
@@ -650,6 +691,7 @@ func (x *explorer) step(s *PState) []succ {
 		var out []succ
 		if bodyOK {
 			st2 := copyStore(st)
+			age(st2)
 			if n.KeyVar != nil {
 				st2[n.KeyVar.ID] = Val{T: mk("rk", "", xr)}
 			}
@@ -661,7 +703,9 @@ func (x *explorer) step(s *PState) []succ {
 		}
 		if doneOK {
 			ls := append(append([]Label{}, labels...), Label{Kind: "rangedone", Key: key, T: xr, Node: n})
-			out = append(out, succ{n: n.Succ[1], st: copyStore(st), facts: s.Facts, labels: ls})
+			st3 := copyStore(st)
+			age(st3)
+			out = append(out, succ{n: n.Succ[1], st: st3, facts: s.Facts, labels: ls})
 		}
 		return out
 	case NBranch:
